@@ -199,6 +199,9 @@ func cmdCheck(args []string) {
 		if o.Status == "unsat" {
 			nDis++
 			bySolver[o.Solver]++
+			if o.Ms > 6000 && os.Getenv("VERIF_SLOW") != "" {
+				fmt.Printf("SLOW %6dms %s %s\n", o.Ms, o.Solver, o.Name)
+			}
 			if len(samples) < 6 && (o.Kind == "post" || o.Kind == "loop-inv-preserved" || o.Kind == "index" || o.Kind == "call-pre") {
 				sz := 0
 				if fi, err := os.Stat(o.File); err == nil {
